@@ -11,6 +11,8 @@ From OV Require Import Model.TreeDef Model.TreeHeap Model.TreeHeapBase Model.Tre
   Model.TreeHeapFinal Model.TreeHeapSer Gen.TreeArity
   Model.TreeOpsDescr Model.TreeOpsModel Model.TreePopDescr Model.TreePopModel Model.TreeGrowDescr Model.TreeGrowModel
   Gen.TreeOps.
+From OV Require Model.TreeAlgo Model.TreeAlgoDescr Gen.TreeAlgoDescr.
+From OV Require Import Model.TreeHeapAlgoLink.
 Import ListNotations.
 
 Theorem C09_arity_table_ok : tab_ok arity_tab.
@@ -245,3 +247,62 @@ Proof. exact prune_is_descr. Qed.
 Theorem C09_grow_is_source : forall E d ds st,
   run_grow E (Nat.eqb d 0) (grow E (pred d)) grow_src 3 ds st = grow E d ds st.
 Proof. exact grow_is_descr. Qed.
+
+(* ---- what the operators call in core/node.py.  [find_node] (called by _mutate and _cross on the root of the deep
+   copy), [n_nodes] (called by _mutation and _crossover) and [pre_order] of the heap model Model/TreeHeap.v are, on
+   every heap that represents a tree, the interpretation of the descriptions REGENERATED from node.py
+   (translate/t_treealgo.py -> Gen/TreeAlgoDescr.v, the same file C11 is about), the [par] / [flg] the interpreter
+   reads being the stored parent / flag fields of the heap ([hpar st], [hflg st]).  For EVERY position p (0, in range,
+   out of range).  Result maps ([res_of_fn], Model/TreeHeapAlgoLink.v): FnSlot q f -> Ok (q, f);
+   FnAttrErr -> Exn; no answer (fuel) / FnOther -> Stuck, which never happens on a represented tree.
+   The descriptions regenerated on this run are the ones the mirrors of Model/TreeAlgo.v implement ... *)
+Theorem C09_descr_pre_order_regenerated :
+  OV.Gen.TreeAlgoDescr.pre_order_descr = Some OV.Model.TreeAlgoDescr.descr_pre.
+Proof. reflexivity. Qed.
+
+Theorem C09_descr_find_node_regenerated :
+  OV.Gen.TreeAlgoDescr.find_node_descr = Some OV.Model.TreeAlgoDescr.descr_find.
+Proof. reflexivity. Qed.
+
+Theorem C09_descr_properties_regenerated :
+  OV.Gen.TreeAlgoDescr.properties_descr = Some OV.Model.TreeAlgoDescr.descr_props.
+Proof. reflexivity. Qed.
+
+(* ... the heap functions are the mirrors of Model/TreeAlgo.v on the represented tree ... *)
+Theorem C09_find_node_heap_is_mirror : forall st t p, WFt arity_tab st t ->
+  find_node st (tid t) p =
+  res_of_fn (OV.Model.TreeAlgo.find_node_h (hpar st) (hflg st) t p).
+Proof. exact (find_node_WFt_is_find_node_h arity_tab). Qed.
+
+Theorem C09_n_nodes_heap_is_mirror : forall st t, WFt arity_tab st t ->
+  n_nodes st (tid t) = res_of_count (OV.Model.TreeAlgo.props_bfs t).
+Proof. exact (n_nodes_WFt_is_props_bfs arity_tab). Qed.
+
+(* ... hence the regenerated code.  [dq]: find_node walks pre_order, whatever post_order is *)
+Theorem C09_find_node_in_operators_is_node_py : forall dp df,
+  OV.Gen.TreeAlgoDescr.pre_order_descr = Some dp -> OV.Gen.TreeAlgoDescr.find_node_descr = Some df ->
+  forall dq st t p, WFt arity_tab st t ->
+  find_node st (tid t) p =
+  res_of_fn (OV.Model.TreeAlgoDescr.interp_find dp dq df (hpar st) (hflg st) t p).
+Proof.
+  exact (find_node_WFt_is_descr arity_tab _ _ C09_descr_pre_order_regenerated C09_descr_find_node_regenerated).
+Qed.
+
+(* the call sites themselves: _mutate / _cross call find_node on the root m of the deep copy, in the heap st1 the
+   copy returned; that is a well-formed tree t' (equal to the parent up to node identity), and the call is the
+   regenerated find_node on t' *)
+Theorem C09_find_node_call_on_copy_is_node_py : forall dp df,
+  OV.Gen.TreeAlgoDescr.pre_order_descr = Some dp -> OV.Gen.TreeAlgoDescr.find_node_descr = Some df ->
+  forall st t m st1, WFt arity_tab st t -> deepcopy st (tid t) = Ok (m, st1) ->
+  exists t', tid t' = m /\ WFt arity_tab st1 t' /\ erase t' = erase t /\
+    forall dq p, find_node st1 m p =
+                 res_of_fn (OV.Model.TreeAlgoDescr.interp_find dp dq df (hpar st1) (hflg st1) t' p).
+Proof.
+  exact (find_node_on_copy_is_descr arity_tab _ _ C09_descr_pre_order_regenerated C09_descr_find_node_regenerated).
+Qed.
+
+Theorem C09_n_nodes_in_operators_is_node_py : forall d,
+  OV.Gen.TreeAlgoDescr.properties_descr = Some d ->
+  forall st t, WFt arity_tab st t ->
+  n_nodes st (tid t) = res_of_zcount (OV.Model.TreeAlgoDescr.interp_props d t).
+Proof. exact (n_nodes_WFt_is_descr arity_tab _ C09_descr_properties_regenerated). Qed.
